@@ -88,6 +88,9 @@ func c04Gen(rt *rapid.T) stormCase {
 			if !idem && q.Kind == "query" && !q.Graph && rapid.IntRange(0, 3).Draw(rt, "oddstmt") == 0 {
 				q.Stmt = genOddStmt(rt, q.Token)
 			}
+			if q.Kind == "execute" && !q.UnknownID && !idem && rapid.IntRange(0, 3).Draw(rt, "decoy") == 0 {
+				q.Decoy = true
+			}
 			q.Script = c04Script(rt)
 			sc.Reqs = append(sc.Reqs, stormReq{reqSpec: q})
 		}
@@ -122,6 +125,9 @@ func TestC04(t *testing.T) {
 				}
 				if q.UnknownID {
 					kind += "+unknown-id"
+				}
+				if q.Decoy {
+					kind += "+id-redefined"
 				}
 				if len(q.Stmt.Planted) > 0 && strings.HasPrefix(q.Stmt.Planted[0], "not-dml") {
 					kind += "+not-dml"
